@@ -44,6 +44,10 @@ namespace hs
         std::vector<TapeReq>     tape;
         bool                     tape_valid = true;
         std::vector<std::size_t> outer_len; // lengths of the outer markers' tapes when this one was taken
+        // temporary stack scopes (K_TEMP): blocks in use when the scope was opened; shrink_to_fit() requested on it
+        std::size_t t_size  = 0;
+        bool        t_flag  = false;
+        std::size_t t_block = 0;
     };
 
     struct ObjSt
@@ -65,6 +69,9 @@ namespace hs
         std::uintptr_t           last_end     = 0; // end (incl. back fence) of the latest stack-like allocation
         bool                     last_end_valid = false;
         std::size_t              last_block     = 0;
+        // K_TEMP: blocks the stack is using, blocks it caches, block of the current top; valid while t_model
+        std::size_t t_size = 1, t_cached = 0, t_block = 0;
+        bool        t_model = false, t_base_flag = false;
         void                     clear_model()
         {
             markers.clear();
